@@ -77,10 +77,12 @@ theorem c10_step (hl : ∀ s, lower (lower s) = lower s) (m : Mgr) (h : Reachabl
   cases sync_char lower hl m hI name latest with
   | requeue hr he =>
     rw [hr, he]
-    refine ⟨⟨?_, ?_⟩, ?_⟩
+    refine ⟨⟨?_, ?_, ?_⟩, ?_⟩
     · intro k p ci hp hci _
       exact ⟨hp, hci, Iff.rfl⟩
     · intro k; exact Or.inl rfl
+    · intro k p ci hp hci _
+      exact ⟨hp, hci⟩
     · simp only [if_true]
       exact ⟨fun _ => rfl, rfl, fun _ => Iff.rfl⟩
   | deleted ho hlat hd =>
@@ -361,5 +363,559 @@ theorem c10_tls_unserved (m : Mgr) (base : TLS) (sni localAddr : Str) (hne : sni
   unfold tlsSpec
   rw [hg]
 
+/-! ### admissible histories: the manager serves exactly what the current objects say
+
+An *admissible* history is one in which every object written passes the admission plug-in's own rule
+(`pluginAdmits`: valid name, parseable secure-serving data, no name shared with another current object) against
+the objects existing at that moment, and is handed to the handler before the next write (plus arbitrary
+re-deliveries). On such histories no event is ever refused and the served names are exactly the claimed ones.
+On other histories (an object created while another cluster still holds one of its names, delayed events, …) the
+theorems above (`c10_inv`, `c10_step`, `c10_iff`) are what holds: the refused cluster is not served. -/
+
+inductive AEv
+  | apply (name : Str) (spec : Spec)   -- create or update, synced at once
+  | delete (name : Str)                -- delete, synced at once
+  | resync (name : Str)                -- the queue re-delivers an event for `name`
+
+def applyEv (w : World) : AEv → World
+  | .apply n s => ((w.step lower (.set n s)).1.step lower (.sync n)).1
+  | .delete n => ((w.step lower (.unset n)).1.step lower (.sync n)).1
+  | .resync n => (w.step lower (.sync n)).1
+
+/-- the outcome of the handler invocation the event ends with -/
+def evOutcome (w : World) : AEv → Option Outcome
+  | .apply n s => ((w.step lower (.set n s)).1.step lower (.sync n)).2
+  | .delete n => ((w.step lower (.unset n)).1.step lower (.sync n)).2
+  | .resync n => (w.step lower (.sync n)).2
+
+def evOK (w : World) : AEv → Prop
+  | .apply n s => pluginAdmits lower w.lister n s = true
+  | .delete n => lower n = n
+  | .resync n => lower n = n
+
+def Admissible (w : World) : List AEv → Prop
+  | [] => True
+  | e :: rest => evOK lower w e ∧ Admissible (applyEv lower w e) rest
+
+def runEvs (w : World) : List AEv → World
+  | [] => w
+  | e :: rest => runEvs (applyEv lower w e) rest
+
+structure WInv (w : World) : Prop where
+  reach : Reachable lower w.mgr
+  mirror : Mirror lower w.lister w.mgr
+  valid : ∀ n s, w.lister.get n = some s → lower n = n ∧ s.bad = false
+
+theorem clusterAt_back {c : Str} {m m' : Mgr} (hf : Frame c m m') {k c' : Str}
+    (h : clusterAt m' k = some c') (hne : c' ≠ c) : clusterAt m k = some c' := by
+  obtain ⟨p, ci, h1, h2, h3⟩ := (clusterAt_some_iff m' k c').1 h
+  obtain ⟨h4, h5⟩ := hf.back k p ci h1 h2 (by rw [h3]; exact hne)
+  rw [clusterAt_of_look h4 h5, h3]
+
+/-- one handler invocation for `n` when every OTHER object of the (already written) lister is applied -/
+theorem mirror_sync (hl : ∀ s, lower (lower s) = lower s) (m : Mgr) (hR : Reachable lower m) (lister' : Lister)
+    (n : Str) (hn : lower n = n)
+    (H1 : ∀ n' s', n' ≠ n → lister'.get n' = some s' → Applied lower (lower n') s' m)
+    (H2 : ∀ k c, clusterAt m k = some c → c ≠ lower n → ∃ n' s', n' ≠ n ∧ lister'.get n' = some s' ∧ lower n' = c)
+    (H3 : ∀ n' s', lister'.get n' = some s' → lower n' = n' ∧ s'.bad = false)
+    (H4 : ∀ s, lister'.get n = some s → ∀ k ∈ objNames lower (lower n) s,
+            clusterAt m k = none ∨ clusterAt m k = some (lower n)) :
+    (syncUpstreamCluster lower m n (lister'.get n)).2.requeue = false ∧
+    Mirror lower lister' (syncUpstreamCluster lower m n (lister'.get n)).1 := by
+  have hstep := c10_step lower hl m hR n (lister'.get n)
+  have hR' : Reachable lower (syncUpstreamCluster lower m n (lister'.get n)).1 := Reachable.step m n _ hR
+  have hI' := c10_inv lower hl _ hR'
+  have hothers : ∀ n' s', n' ≠ n → lister'.get n' = some s' →
+      Applied lower (lower n') s' (syncUpstreamCluster lower m n (lister'.get n)).1 := by
+    intro n' s' hne hg
+    have hn' := (H3 n' s' hg).1
+    exact applied_preserved lower m _ hI' (lower n') (lower n) (by rw [hn', hn]; exact hne) (hl n') s'
+      hstep.1 (H1 n' s' hne hg)
+  cases hg : lister'.get n with
+  | none =>
+    rw [hg] at hstep hothers
+    have hreq : (syncUpstreamCluster lower m n none).2.requeue = false := rfl
+    refine ⟨hreq, ?_⟩
+    rw [hreq] at hstep
+    have hd : Deleted lower (lower n) m (syncUpstreamCluster lower m n none).1 := by
+      have := hstep.2; simpa using this
+    refine ⟨?_, ?_⟩
+    · intro n' s' hg'
+      have hne : n' ≠ n := by intro e; rw [e, hg] at hg'; cases hg'
+      exact hothers n' s' hne hg'
+    · intro k c hk
+      have hcne : c ≠ lower n := by intro e; rw [e] at hk; exact hd.gone k hk
+      obtain ⟨n', s', _, h2, h3⟩ := H2 k c (clusterAt_back hstep.1 hk hcne) hcne
+      exact ⟨n', s', h2, h3⟩
+  | some s =>
+    rw [hg] at hstep hothers
+    have hreq := c10_refused_iff lower hl m hR n s (H4 s hg) (H3 n s hg).2
+    refine ⟨hreq, ?_⟩
+    rw [hreq] at hstep
+    have ha : Applied lower (lower n) s (syncUpstreamCluster lower m n (some s)).1 := by
+      have := hstep.2; simpa using this
+    refine ⟨?_, ?_⟩
+    · intro n' s' hg'
+      by_cases hne : n' = n
+      · subst hne
+        rw [hg] at hg'; cases hg'
+        exact ha
+      · exact hothers n' s' hne hg'
+    · intro k c hk
+      by_cases hcne : c = lower n
+      · exact ⟨n, s, hg, hcne.symm⟩
+      · obtain ⟨n', s', _, h2, h3⟩ := H2 k c (clusterAt_back hstep.1 hk hcne) hcne
+        exact ⟨n', s', h2, h3⟩
+
+/-- in a mirrored state, a key held by cluster `lower n'` is one of the names its object claims -/
+theorem key_of_mirror (hl : ∀ s, lower (lower s) = lower s) (w : World) (hW : WInv lower w) (k : Str) (n' : Str)
+    (s' : Spec) (hg : w.lister.get n' = some s') (hk : clusterAt w.mgr k = some (lower n')) :
+    k ∈ objNames lower (lower n') s' := by
+  have hI := c10_inv lower hl _ hW.reach
+  obtain ⟨p, ci, hget, hcl, _, _, _, _, hkeys⟩ := (hW.mirror.objs n' s' hg).served
+  obtain ⟨hp, hci⟩ := (get_some_iff lower _ _ p ci).1 hget
+  have hc : clusterAt w.mgr (lower (lower n')) = some (lower n') := by
+    rw [clusterAt_of_look hp hci, hcl]
+  have := owner_unique lower hI hk hc
+  rw [hp] at this
+  exact (hkeys k).1 this
+
+theorem admissible_step (hl : ∀ s, lower (lower s) = lower s) (w : World) (hW : WInv lower w) (e : AEv)
+    (hok : evOK lower w e) :
+    WInv lower (applyEv lower w e) ∧ ∀ o, evOutcome lower w e = some o → o.requeue = false := by
+  have hI := c10_inv lower hl _ hW.reach
+  cases e with
+  | apply n s =>
+    unfold evOK pluginAdmits at hok
+    simp only [Bool.and_eq_true, decide_eq_true_eq, Bool.not_eq_true'] at hok
+    obtain ⟨⟨hn, hbad⟩, hconf⟩ := hok
+    have hget : (w.lister.set n s).get n = some s := by rw [lister_get_set]; simp
+    have H := mirror_sync lower hl w.mgr hW.reach (w.lister.set n s) n hn
+      (by
+        intro n' s' hne hg
+        rw [lister_get_set, if_neg (fun e => hne e.symm)] at hg
+        exact hW.mirror.objs n' s' hg)
+      (by
+        intro k c hk hcne
+        obtain ⟨n', s', h1, h2⟩ := hW.mirror.back k c hk
+        have hne : n' ≠ n := by intro e; rw [e] at h2; exact hcne h2.symm
+        refine ⟨n', s', hne, ?_, h2⟩
+        rw [lister_get_set, if_neg (fun e => hne e.symm)]
+        exact h1)
+      (by
+        intro n' s' hg
+        rw [lister_get_set] at hg
+        by_cases hne : n = n'
+        · subst hne
+          simp only [if_true, Option.some.injEq] at hg
+          subst hg
+          exact ⟨hn, hbad⟩
+        · rw [if_neg hne] at hg
+          exact hW.valid n' s' hg)
+      (by
+        intro s0 hg0 k hk
+        rw [hget] at hg0; cases hg0
+        -- the plug-in's rule: the names of the new object are not claimed by any other current object
+        cases hcl : clusterAt w.mgr k with
+        | none => exact Or.inl rfl
+        | some c' =>
+          right
+          by_cases hcc : c' = lower n
+          · rw [hcc]
+          · exfalso
+            obtain ⟨n', s', h1, h2⟩ := hW.mirror.back k c' hcl
+            subst h2
+            have hk' := key_of_mirror lower hl w hW k n' s' h1 hcl
+            have hmem := lister_mem_of_get _ _ _ h1
+            unfold pluginConflict at hconf
+            rw [List.any_eq_false] at hconf
+            have hu := hconf (n', s') hmem
+            simp only [hcc, if_false] at hu
+            have hu' : ∀ x ∈ n' :: s'.aliases,
+                ¬ (lower (lower n) = lower x) ∧ ∀ sn ∈ s.aliases, ¬ (lower sn = lower x) := by
+              intro x hx
+              refine ⟨?_, ?_⟩
+              · intro e
+                apply hu
+                exact List.any_eq_true.2 ⟨x, hx, by simp [e]⟩
+              · intro sn hsn e
+                apply hu
+                refine List.any_eq_true.2 ⟨x, hx, ?_⟩
+                rw [Bool.or_eq_true]; right
+                exact List.any_eq_true.2 ⟨sn, hsn, by simp [e]⟩
+            -- k = lower x for some x among the other object's names
+            have hx : ∃ x ∈ n' :: s'.aliases, k = lower x := by
+              unfold objNames at hk'
+              rcases List.mem_cons.1 hk' with h | h
+              · exact ⟨n', List.mem_cons_self, h⟩
+              · obtain ⟨a, ha, rfl⟩ := List.mem_map.1 h
+                exact ⟨a, List.mem_cons_of_mem _ ha, rfl⟩
+            obtain ⟨x, hx1, hx2⟩ := hx
+            obtain ⟨hu1, hu2⟩ := hu' x hx1
+            unfold objNames at hk
+            rcases List.mem_cons.1 hk with h | h
+            · apply hu1
+              rw [hl, ← h, hx2]
+            · obtain ⟨sn, hsn, hsn2⟩ := List.mem_map.1 h
+              exact hu2 sn hsn (by rw [hsn2, hx2]))
+    have hval : ∀ n' s', (w.lister.set n s).get n' = some s' → lower n' = n' ∧ s'.bad = false := by
+      intro n' s' hg
+      rw [lister_get_set] at hg
+      by_cases hne : n = n'
+      · subst hne
+        simp only [if_true, Option.some.injEq] at hg
+        subst hg
+        exact ⟨hn, hbad⟩
+      · rw [if_neg hne] at hg
+        exact hW.valid n' s' hg
+    refine ⟨⟨Reachable.step _ n _ hW.reach, H.2, hval⟩, ?_⟩
+    intro o ho
+    have : o = (syncUpstreamCluster lower w.mgr n ((w.lister.set n s).get n)).2 := by
+      simp only [evOutcome, World.step, Option.some.injEq] at ho
+      exact ho.symm
+    rw [this]; exact H.1
+  | delete n =>
+    have hn : lower n = n := hok
+    have hget : (w.lister.unset n).get n = none := by rw [lister_get_unset]; simp
+    have H := mirror_sync lower hl w.mgr hW.reach (w.lister.unset n) n hn
+      (by
+        intro n' s' hne hg
+        rw [lister_get_unset, if_neg (fun e => hne e.symm)] at hg
+        exact hW.mirror.objs n' s' hg)
+      (by
+        intro k c hk hcne
+        obtain ⟨n', s', h1, h2⟩ := hW.mirror.back k c hk
+        have hne : n' ≠ n := by intro e; rw [e] at h2; exact hcne h2.symm
+        refine ⟨n', s', hne, ?_, h2⟩
+        rw [lister_get_unset, if_neg (fun e => hne e.symm)]
+        exact h1)
+      (by
+        intro n' s' hg
+        rw [lister_get_unset] at hg
+        by_cases hne : n = n'
+        · rw [if_pos hne] at hg; cases hg
+        · rw [if_neg hne] at hg
+          exact hW.valid n' s' hg)
+      (by intro s0 hg0; rw [hget] at hg0; cases hg0)
+    have hval : ∀ n' s', (w.lister.unset n).get n' = some s' → lower n' = n' ∧ s'.bad = false := by
+      intro n' s' hg
+      rw [lister_get_unset] at hg
+      by_cases hne : n = n'
+      · rw [if_pos hne] at hg; cases hg
+      · rw [if_neg hne] at hg
+        exact hW.valid n' s' hg
+    refine ⟨⟨Reachable.step _ n _ hW.reach, H.2, hval⟩, ?_⟩
+    intro o ho
+    have : o = (syncUpstreamCluster lower w.mgr n ((w.lister.unset n).get n)).2 := by
+      simp only [evOutcome, World.step, Option.some.injEq] at ho
+      exact ho.symm
+    rw [this]; exact H.1
+  | resync n =>
+    have hn : lower n = n := hok
+    have H := mirror_sync lower hl w.mgr hW.reach w.lister n hn
+      (fun n' s' _ hg => hW.mirror.objs n' s' hg)
+      (by
+        intro k c hk hcne
+        obtain ⟨n', s', h1, h2⟩ := hW.mirror.back k c hk
+        have hne : n' ≠ n := by intro e; rw [e] at h2; exact hcne h2.symm
+        exact ⟨n', s', hne, h1, h2⟩)
+      hW.valid
+      (by
+        intro s0 hg0 k hk
+        right
+        obtain ⟨p, ci, hget, hcl, _, _, _, _, hkeys⟩ := (hW.mirror.objs n s0 hg0).served
+        obtain ⟨_, hci⟩ := (get_some_iff lower _ _ p ci).1 hget
+        rw [clusterAt_of_look ((hkeys k).2 hk) hci, hcl])
+    refine ⟨⟨Reachable.step _ n _ hW.reach, H.2, hW.valid⟩, ?_⟩
+    intro o ho
+    have : o = (syncUpstreamCluster lower w.mgr n (w.lister.get n)).2 := by
+      simp only [evOutcome, World.step, Option.some.injEq] at ho
+      exact ho.symm
+    rw [this]; exact H.1
+
+theorem init_winv : WInv lower World.init := by
+  refine ⟨Reachable.init, ⟨?_, ?_⟩, ?_⟩
+  · intro n s h; simp [World.init, Lister.get] at h
+  · intro k c h; simp [World.init, Mgr.init, clusterAt, Mgr.look, alookup] at h
+  · intro n s h; simp [World.init, Lister.get] at h
+
+theorem winv_runEvs (hl : ∀ s, lower (lower s) = lower s) (w : World) (hW : WInv lower w) (evs : List AEv)
+    (hadm : Admissible lower w evs) : WInv lower (runEvs lower w evs) := by
+  induction evs generalizing w with
+  | nil => exact hW
+  | cons e rest ih =>
+    exact ih _ (admissible_step lower hl w hW e hadm.1).1 hadm.2
+
+/-- **c10_admissible** — for every admissible history: the manager mirrors the lister (every current object is
+    applied: served under exactly its names with its TLS material; every served key belongs to a current object),
+    hence a request addressed to `H` is served by cluster `c` iff a current object named `c` claims
+    `lower (stripPort H)`; and the next admissible event is never refused. -/
+theorem c10_admissible (hl : ∀ s, lower (lower s) = lower s) (evs : List AEv)
+    (hadm : Admissible lower World.init evs) :
+    let w := runEvs lower World.init evs
+    Mirror lower w.lister w.mgr ∧
+    (∀ H c, (∃ p ci, resolve lower w.mgr H = some (p, ci) ∧ ci.cluster = c) ↔
+       ∃ n s, w.lister.get n = some s ∧ lower n = c ∧ lower (hostWithoutPort lower H) ∈ objNames lower c s) ∧
+    (∀ e, evOK lower w e → ∀ o, evOutcome lower w e = some o → o.requeue = false) := by
+  have hW := winv_runEvs lower hl _ (init_winv lower) evs hadm
+  have hI := c10_inv lower hl _ hW.reach
+  refine ⟨hW.mirror, ?_, fun e he => (admissible_step lower hl _ hW e he).2⟩
+  intro H c
+  constructor
+  · rintro ⟨p, ci, hr, hcl⟩
+    unfold resolve at hr
+    obtain ⟨h1, h2⟩ := (get_some_iff lower _ _ p ci).1 hr
+    have hk : clusterAt (runEvs lower World.init evs).mgr (lower (hostWithoutPort lower H)) = some c := by
+      rw [clusterAt_of_look h1 h2, hcl]
+    obtain ⟨n, s, hg, hn⟩ := hW.mirror.back _ c hk
+    subst hn
+    exact ⟨n, s, hg, rfl, key_of_mirror lower hl _ hW _ n s hg hk⟩
+  · rintro ⟨n, s, hg, hn, hmem⟩
+    subst hn
+    exact (iff_of_applied lower _ hI _ s (hW.mirror.objs n s hg) H).2 hmem
+
+/-! ### the judge the harness evaluates on the real controller's states is implied by the Prop-level statements -/
+
+theorem invB_of_inv (m : Mgr) (h : Inv lower m) : invB lower m = true := by
+  unfold invB
+  simp only [Bool.and_eq_true, List.all_eq_true, decide_eq_true_eq]
+  refine ⟨⟨?_, ?_⟩, ?_⟩
+  · intro e _
+    split
+    · rfl
+    · rename_i p hp
+      obtain ⟨ci, hci⟩ := h.wf e.1 p hp
+      rw [hci]
+      simp only [Bool.and_eq_true, decide_eq_true_eq, List.all_eq_true, Bool.not_eq_true', decide_eq_false_iff_not]
+      exact ⟨⟨h.mem e.1 p ci hp hci, h.all e.1 p ci hp hci⟩, h.alive e.1 p hp⟩
+  · intro ci hci
+    obtain ⟨p, _, hp⟩ := List.getElem_of_mem hci
+    exact h.low p ci (by rw [List.getElem?_eq_some_iff]; exact ⟨_, hp⟩)
+  · intro p hp
+    obtain ⟨ci, hci⟩ := h.swf p hp
+    exact lt_of_getElem?_some _ _ _ hci
+
+theorem frameB_of_frame (c : Str) (m m' : Mgr) (h : Frame c m m') : frameB c m m' = true := by
+  unfold frameB
+  simp only [Bool.and_eq_true, List.all_eq_true]
+  refine ⟨⟨⟨?_, ?_⟩, ?_⟩, ?_⟩
+  · intro e _
+    split
+    · rfl
+    · rename_i p hp
+      split
+      · rfl
+      · rename_i ci hci
+        by_cases hc : ci.cluster = c
+        · simp [hc]
+        · obtain ⟨h1, h2, h3⟩ := h.keep e.1 p ci hp hci hc
+          simp [hc, h1, h2, h3]
+  · intro e _
+    rcases h.only e.1 with h1 | h1 | h1 <;> simp [h1]
+  · intro e _
+    rcases h.only e.1 with h1 | h1 | h1 <;> simp [h1]
+  · intro e _
+    split
+    · rfl
+    · rename_i p hp
+      split
+      · rfl
+      · rename_i ci hci
+        by_cases hc : ci.cluster = c
+        · simp [hc]
+        · obtain ⟨h1, h2⟩ := h.back e.1 p ci hp hci hc
+          simp [hc, h1, h2]
+
+theorem unchangedB_of (m m' : Mgr) (h : Unchanged m m') : unchangedB m m' = true := by
+  unfold unchangedB
+  simp only [Bool.and_eq_true, List.all_eq_true, decide_eq_true_eq, beq_iff_eq]
+  refine ⟨⟨⟨fun e _ => h.look e.1, fun e _ => h.look e.1⟩, h.heap⟩, ?_⟩
+  intro p _
+  exact decide_eq_decide.2 (h.stopped p)
+
+theorem deletedB_of (c : Str) (m m' : Mgr) (h : Deleted lower c m m') : deletedB lower c m m' = true := by
+  unfold deletedB
+  simp only [Bool.and_eq_true, List.all_eq_true, decide_eq_true_eq]
+  refine ⟨fun e _ => h.gone e.1, ?_⟩
+  split
+  · rename_i p ci hg
+    by_cases hc : ci.cluster = c
+    · simp [h.stop p ci hg hc]
+    · simp [hc]
+  · rfl
+
+theorem appliedB_of (c : Str) (spec : Spec) (m' : Mgr) (h : Applied lower c spec m') :
+    appliedB lower c spec m' = true := by
+  obtain ⟨p, ci, hg, hcl, hnames, hcert, hca, hns, hkeys⟩ := h.served
+  unfold appliedB
+  rw [hg]
+  simp only [Bool.and_eq_true, decide_eq_true_eq, Bool.not_eq_true', decide_eq_false_iff_not, List.all_eq_true,
+    Bool.or_eq_true]
+  refine ⟨⟨⟨⟨⟨⟨hcl, hnames⟩, hcert⟩, hca⟩, hns⟩, fun k hk => (hkeys k).2 hk⟩, ?_⟩
+  intro e _
+  by_cases hp : m'.look e.1 = some p
+  · right; exact (hkeys e.1).1 hp
+  · left; exact hp
+
+theorem stepB_of (c : Str) (latest : Option Spec) (requeued : Bool) (m m' : Mgr)
+    (h : StepOK lower c latest requeued m m') : stepB lower c latest requeued m m' = true := by
+  unfold StepOK at h
+  unfold stepB
+  rw [frameB_of_frame c m m' h.1, Bool.true_and]
+  cases requeued with
+  | true =>
+    simp only [if_true] at h ⊢
+    exact unchangedB_of m m' h.2
+  | false =>
+    simp only [Bool.false_eq_true, if_false] at h ⊢
+    cases latest with
+    | none => exact deletedB_of lower c m m' h.2
+    | some spec => exact appliedB_of lower c spec m' h.2
+
+/-- **c10_judge** — the Boolean judge (`invB`, `stepB`: what `C10.judge` evaluates on the states observed on the
+    real controller) holds of the model for every history and every event. -/
+theorem c10_judge (hl : ∀ s, lower (lower s) = lower s) (m : Mgr) (h : Reachable lower m) (name : Str)
+    (latest : Option Spec) :
+    invB lower (syncUpstreamCluster lower m name latest).1 = true ∧
+    stepB lower (lower name) latest (syncUpstreamCluster lower m name latest).2.requeue m
+      (syncUpstreamCluster lower m name latest).1 = true :=
+  ⟨invB_of_inv lower _ (c10_inv lower hl _ (Reachable.step m name latest h)),
+   stepB_of lower _ _ _ _ _ (c10_step lower hl m h name latest)⟩
+
+theorem mirrorB_of (lister : Lister) (m : Mgr) (h : Mirror lower lister m) : mirrorB lower lister m = true := by
+  unfold mirrorB
+  simp only [Bool.and_eq_true, List.all_eq_true, Bool.or_eq_true, decide_eq_true_eq]
+  refine ⟨?_, ?_⟩
+  · intro u _
+    by_cases hg : lister.get u.1 = some u.2
+    · right; exact appliedB_of lower _ _ _ (h.objs u.1 u.2 hg)
+    · left; exact hg
+  · intro e _
+    split
+    · rfl
+    · rename_i c hc
+      obtain ⟨n, s, hg, hn⟩ := h.back e.1 c hc
+      rw [List.any_eq_true]
+      refine ⟨(n, s), lister_mem_of_get _ _ _ hg, ?_⟩
+      simp [hg, hn]
+
+/-- the judge of admissible histories (`mirrorB`) holds of the model on every admissible history -/
+theorem c10_judge_admissible (hl : ∀ s, lower (lower s) = lower s) (evs : List AEv)
+    (hadm : Admissible lower World.init evs) :
+    mirrorB lower (runEvs lower World.init evs).lister (runEvs lower World.init evs).mgr = true :=
+  mirrorB_of lower _ _ (c10_admissible lower hl evs hadm).1
+
 end
+
+/-! ### host and port (ASCII instance of `strings.ToLower`) -/
+
+/-- `asciiLower` satisfies the only hypothesis the theorems make about `strings.ToLower` -/
+theorem c10_lower_idem : ∀ s, asciiLower (asciiLower s) = asciiLower s := asciiLower_idem
+
+/-- what `HostWithoutPort` answers only depends on the lower-cased host (case-insensitivity) -/
+theorem c10_hostport_case (lower : Str → Str) (H H' : Str) (h : lower H = lower H') :
+    hostWithoutPort lower H = hostWithoutPort lower H' := by
+  unfold hostWithoutPort; rw [h]
+
+theorem hostWithoutPort_eq (lower : Str → Str) (H : Str) :
+    hostWithoutPort lower H = match splitHostPort (lower H) with
+      | none => lower H
+      | some h => h := rfl
+
+/-- no colon: the whole (lower-cased) string is the host -/
+theorem c10_hostport_noport (lower : Str → Str) (H : Str) (h : colon ∉ lower H) :
+    hostWithoutPort lower H = lower H := by
+  rw [hostWithoutPort_eq, splitHostPort_noport _ h]
+
+/-- `host:port` (no colon or bracket in either part, the port is not inspected): the port is dropped -/
+theorem c10_hostport (h p : Str) (h1 : colon ∉ h) (h2 : lbr ∉ h) (h3 : rbr ∉ h)
+    (p1 : colon ∉ p) (p2 : lbr ∉ p) (p3 : rbr ∉ p) :
+    hostWithoutPort asciiLower (h ++ colon :: p) = asciiLower h := by
+  rw [hostWithoutPort_eq]
+  have e : asciiLower (h ++ colon :: p) = asciiLower h ++ colon :: asciiLower p := by
+    simp [asciiLower, lowerByte, colon]
+  rw [e, splitHostPort_plain]
+  · exact fun x => h1 ((mem_asciiLower_special colon (Or.inl rfl) h).1 x)
+  · exact fun x => h2 ((mem_asciiLower_special lbr (Or.inr (Or.inl rfl)) h).1 x)
+  · exact fun x => h3 ((mem_asciiLower_special rbr (Or.inr (Or.inr rfl)) h).1 x)
+  · exact fun x => p1 ((mem_asciiLower_special colon (Or.inl rfl) p).1 x)
+  · exact fun x => p2 ((mem_asciiLower_special lbr (Or.inr (Or.inl rfl)) p).1 x)
+  · exact fun x => p3 ((mem_asciiLower_special rbr (Or.inr (Or.inr rfl)) p).1 x)
+
+/-- `[host]:port` (the host may contain colons): brackets and port are dropped -/
+theorem c10_hostport_bracket (h p : Str) (h2 : lbr ∉ h) (h3 : rbr ∉ h)
+    (p1 : colon ∉ p) (p2 : lbr ∉ p) (p3 : rbr ∉ p) :
+    hostWithoutPort asciiLower (lbr :: h ++ rbr :: colon :: p) = asciiLower h := by
+  rw [hostWithoutPort_eq]
+  have e : asciiLower (lbr :: h ++ rbr :: colon :: p) = lbr :: asciiLower h ++ rbr :: colon :: asciiLower p := by
+    simp [asciiLower, lowerByte, colon, lbr, rbr]
+  rw [e, splitHostPort_bracket]
+  · exact fun x => h2 ((mem_asciiLower_special lbr (Or.inr (Or.inl rfl)) h).1 x)
+  · exact fun x => h3 ((mem_asciiLower_special rbr (Or.inr (Or.inr rfl)) h).1 x)
+  · exact fun x => p1 ((mem_asciiLower_special colon (Or.inl rfl) p).1 x)
+  · exact fun x => p2 ((mem_asciiLower_special lbr (Or.inr (Or.inl rfl)) p).1 x)
+  · exact fun x => p3 ((mem_asciiLower_special rbr (Or.inr (Or.inr rfl)) p).1 x)
+
+/-- **c10_iff_port** — for an applied cluster: `h`, any case variant of it, and `h:port` are served by it exactly
+    when the lower-cased `h` is one of the names its object claims. -/
+theorem c10_iff_port (m : Mgr) (hI : Inv asciiLower m) (c : Str) (spec : Spec) (ha : Applied asciiLower c spec m)
+    (h p : Str) (h1 : colon ∉ h) (h2 : lbr ∉ h) (h3 : rbr ∉ h) (p1 : colon ∉ p) (p2 : lbr ∉ p) (p3 : rbr ∉ p) :
+    ((∃ q ci, resolve asciiLower m (h ++ colon :: p) = some (q, ci) ∧ ci.cluster = c) ↔
+      asciiLower h ∈ objNames asciiLower c spec) ∧
+    ((∃ q ci, resolve asciiLower m h = some (q, ci) ∧ ci.cluster = c) ↔
+      asciiLower h ∈ objNames asciiLower c spec) := by
+  refine ⟨?_, ?_⟩
+  · rw [iff_of_applied asciiLower m hI c spec ha, c10_hostport h p h1 h2 h3 p1 p2 p3, asciiLower_idem]
+  · rw [iff_of_applied asciiLower m hI c spec ha,
+      c10_hostport_noport asciiLower h (fun x => h1 ((mem_asciiLower_special colon (Or.inl rfl) h).1 x)),
+      asciiLower_idem]
+
+/-! ### non-vacuity: the hypotheses of the theorems are satisfied by concrete, non-trivial histories -/
+
+section NonVacuous
+def sA : Str := [97, 46, 101]      -- "a.e"
+def sB : Str := [98, 46, 101]      -- "b.e"
+def sX : Str := [88, 46, 69]       -- "X.E"
+def sx : Str := [120, 46, 101]     -- "x.e"
+def sXport : Str := [88, 46, 69, 58, 52, 52, 51]   -- "X.E:443"
+
+/-- A{x} created, B{X} refused (conflict), A drops x, B retried and applied, A deleted -/
+def demoCalls : List (Str × Option Spec) :=
+  [ (sA, some { aliases := [sX], cert := some 1, ca := some 1, bad := false }),
+    (sB, some { aliases := [sx], cert := some 2, ca := none, bad := false }),
+    (sA, some { aliases := [], cert := some 1, ca := some 1, bad := false }),
+    (sB, some { aliases := [sx], cert := some 2, ca := none, bad := false }),
+    (sA, none) ]
+
+-- the second event is refused, the fourth (same object) is applied: `happ` of `c10_iff` is satisfiable after a
+-- non-trivial prefix, and the continuation (an event for another cluster) satisfies `hothers`
+example : (syncUpstreamCluster asciiLower (runCalls asciiLower Mgr.init (demoCalls.take 1)) sB
+    (some { aliases := [sx], cert := some 2, ca := none, bad := false })).2 = .refused := by decide
+example : (syncUpstreamCluster asciiLower (runCalls asciiLower Mgr.init (demoCalls.take 3)) sB
+    (some { aliases := [sx], cert := some 2, ca := none, bad := false })).2.requeue = false := by decide
+example : ∀ call ∈ demoCalls.drop 4, asciiLower call.1 ≠ asciiLower sB := by decide
+-- in the final state X.E:443 is served by b.example with B's certificate
+example : (resolve asciiLower (runCalls asciiLower Mgr.init demoCalls) sXport).map (·.2.cluster)
+    = some sB := by decide
+example : (wrapGetConfigForClient asciiLower (runCalls asciiLower Mgr.init demoCalls)
+    { cert := some 100, ca := some 200, requestClientCert := false } sX []).cert = some 2 := by decide
+-- the Boolean judge is not trivially true: it rejects a state in which a key resolves to a cluster that does not list it
+def strayKey : Mgr :=
+  { heap := [({ cluster := sA, aliases := [], cert := none, ca := none } : CI)], stopped := [],
+    map := [(sA, 0), (sx, 0)] }
+example : invB asciiLower strayKey = false := by decide
+-- an admissible history: A{x}, B{}, A drops x, B takes x, A deleted
+example : Admissible asciiLower World.init
+    [ .apply sA { aliases := [sX], cert := some 1, ca := none, bad := false },
+      .apply sB { aliases := [], cert := none, ca := none, bad := false },
+      .apply sA { aliases := [], cert := some 1, ca := none, bad := false },
+      .apply sB { aliases := [sx], cert := none, ca := some 2, bad := false },
+      .delete sA, .resync sB ] := by
+  simp only [Admissible, evOK]
+  decide
+-- and an inadmissible write is recognised: B claiming x while A holds X.Example
+example : pluginAdmits asciiLower [(sA, { aliases := [sX], cert := none, ca := none, bad := false })] sB
+    { aliases := [sx], cert := none, ca := none, bad := false } = false := by decide
+end NonVacuous
+
 end KG.Props.C10
